@@ -478,6 +478,11 @@ class AnnotationCollection(AbstractFeatureIntervalCollection):
         # don't allow this
         if self.is_chunk_relative and start < chrom_ancestor.start:
             start = chrom_ancestor.start
+        if self.is_chunk_relative and end > chrom_ancestor.end:
+            end = chrom_ancestor.end
+        # edge case -- the requested range lies entirely outside of the chunk this collection exists on
+        if start >= end:
+            return None
         chunk_relative_start = chrom_ancestor.parent_to_relative_pos(start)
 
         # handle the edge case where the end is the end of the current chunk
@@ -486,10 +491,6 @@ class AnnotationCollection(AbstractFeatureIntervalCollection):
                 self.lift_over_to_first_ancestor_of_type(SequenceType.CHROMOSOME).parent_to_relative_pos(end - 1) + 1
             )
         else:
-            # if this subset operation is about to walk off the edge of the chunk this collection exists on,
-            # don't allow this
-            if self.is_chunk_relative and end > chrom_ancestor.end:
-                end = chrom_ancestor.end - 1
             chunk_relative_end = self.lift_over_to_first_ancestor_of_type(
                 SequenceType.CHROMOSOME
             ).parent_to_relative_pos(end)
